@@ -1,7 +1,7 @@
 """Per-property checks.  Each returns the process exit code (0 ok, 1 violation, 2 machinery broken)."""
 import os, sys, json, time, traceback
 from .core import (ModelError, Verdict, build_driver, run_tlc, SPEC, VERIF)
-from . import parsecheck, apicheck, printcheck, lexcheck, stress
+from . import parsecheck, apicheck, printcheck, lexcheck, stress, numcheck
 
 
 def seed_of():
@@ -215,7 +215,25 @@ def check_C02(tier, seed):
                          "after each input the context is printed, parsed into again and freed")
 
 
-CHECKS = {"C02": check_C02, "C03": check_C03, "C05": check_C05, "C19": check_C19, "C09": check_C09, "C10": check_C10, "C14": check_C14, "C07": check_C07, "C12": check_C12, "C01": check_C01, "C06": check_C06, "C15": check_C15}
+def check_C04(tier, seed):
+    v = Verdict("C04", tier, seed)
+    exe = build_driver("asan")
+    for c in ["num_int_quick.cfg", "num_float_quick.cfg", "num_bool_quick.cfg"]:
+        res = run_tlc("MC_Num.tla", os.path.join("mc", c))
+        v.add_tlc(c, res, ["P_C04_IntExact"])
+        numcheck.replay(v, exe, res, seed=seed, tag="C04")
+    # witness: without the digits-only guard strtol's leniencies leak (the invariant is not vacuous)
+    w = run_tlc("MC_Num.tla", os.path.join("mc", "num_int_noguard.cfg"), want_behaviours=False)
+    if "P_C04_IntExact" not in w.violated:
+        raise ModelError("vacuity witness failed: the unguarded conversion should violate P_C04_IntExact")
+    v.notes.append("vacuity witness: P_C04_IntExact is violated by the unguarded strtol model, as expected")
+    v.cov["exhaustive"] = True
+    return v.finish(rule="every token up to the length bound over the numeral alphabets (int: 0 1 7 8 9 a f x b + - space; float: 0 1 9 . e + - x p "
+                         "space; bool: letters of the six words in both cases) plus boundary values around LONG_MIN/LONG_MAX in four radixes and "
+                         "DBL_MAX; each through the parser, cfg_setopt and cfg_setmulti with ambient errno in {0, ERANGE, EINVAL}; non-trivial = accepted numerals")
+
+
+CHECKS = {"C04": check_C04, "C02": check_C02, "C03": check_C03, "C05": check_C05, "C19": check_C19, "C09": check_C09, "C10": check_C10, "C14": check_C14, "C07": check_C07, "C12": check_C12, "C01": check_C01, "C06": check_C06, "C15": check_C15}
 
 
 def main(argv):
